@@ -225,6 +225,13 @@ pub fn run_thr(trace: &Trace) -> (RunReport, Vec<u8>) {
     mini_moka::verif::install(Some(main_hooks.clone() as Arc<dyn mini_moka::verif::Hooks>));
     let cache = build_sync(cfg, &reg, &clock);
     let total_ops: usize = trace.threads.iter().map(|t| t.len()).sum();
+    // caller-callback panics (separate population): V::clone / the weigher panic on command
+    if let Some(n) = trace.callback_faults.clone_panic_at {
+        reg.arm_clone_panic(n as i64);
+    }
+    if let Some(n) = trace.callback_faults.weigh_panic_at {
+        reg.arm_weigh_panic(n as i64);
+    }
 
     // prologue (main thread, no scheduler)
     let mut vid_written: BTreeMap<u32, (u16, u32)> = BTreeMap::new(); // vid -> (key, raw weight)
@@ -291,6 +298,9 @@ pub fn run_thr(trace: &Trace) -> (RunReport, Vec<u8>) {
     for h in handles {
         let _ = h.join();
     }
+    // the harness's own calls below must not trip a still-armed callback fault
+    reg.arm_clone_panic(-1);
+    reg.arm_weigh_panic(-1);
     let srep = sched.report();
     rep.steps = srep.steps as u64;
     rep.ops = total_ops as u64;
@@ -303,7 +313,13 @@ pub fn run_thr(trace: &Trace) -> (RunReport, Vec<u8>) {
     rep.fault("stalled_thread_steps", srep.starved_steps as u64);
     let mut hist: Vec<Rec> = out.lock().unwrap().clone();
     hist.sort_by_key(|r| (r.invoke, r.tid, r.idx));
-    rep.fault_injecting = trace.threads.iter().flatten().any(|o| o.f.any()) || spec.starve.is_some();
+    rep.fault_injecting = trace.threads.iter().flatten().any(|o| o.f.any())
+        || spec.starve.is_some()
+        || trace.callback_faults != CallbackFaults::default();
+    rep.fault("callback_panic", reg.injected() as u64);
+    if reg.injected() > 0 {
+        rep.flag("relaxed_after_callback_panic", 1);
+    }
 
     if let Some(kind) = srep.abort_kind {
         let rule = if kind == "deadlock" { "C09.deadlock" } else { "C09.livelock" };
@@ -1203,6 +1219,7 @@ fn thr_stream(pop: &str) -> Option<u64> {
         "burst" => 24,
         "thr-expiry" => 25,
         "thr-sweep" => 26,
+        "thr-callback" => 27,
         _ => return None,
     })
 }
@@ -1288,7 +1305,7 @@ pub fn generate(pop: &str, seed: u64, run: u64) -> Option<Trace> {
     let mut engine = Engine::Thr;
     let mut burst_stall = false;
     match pop {
-        "thr-mixed" | "thr-strict" | "thr-expiry" => {
+        "thr-mixed" | "thr-strict" | "thr-expiry" | "thr-callback" => {
             let nthreads = rng.range(2, 4) as usize;
             let nkeys = rng.range(1, 3) as u16;
             cfg.cap = *rng.pick(&[None, Some(1), Some(2), Some(3), Some(4)]);
@@ -1498,6 +1515,7 @@ pub fn generate(pop: &str, seed: u64, run: u64) -> Option<Trace> {
         _ => return None,
     }
     let total: usize = threads.iter().map(|t| t.len()).sum();
+    let cfg_weigher = cfg.weigher;
     let expected_steps = (total * 12).max(20);
     let policy = match rng.below(3) {
         0 => "random",
@@ -1539,7 +1557,17 @@ pub fn generate(pop: &str, seed: u64, run: u64) -> Option<Trace> {
             budget,
         }),
         prologue,
-        callback_faults: CallbackFaults::default(),
+        callback_faults: if pop == "thr-callback" {
+            let mut cf = CallbackFaults::default();
+            if cfg_weigher && rng.chance(1, 2) {
+                cf.weigh_panic_at = Some(rng.below(total as u64 + 1) as u32);
+            } else {
+                cf.clone_panic_at = Some(rng.below(total as u64 + 1) as u32);
+            }
+            cf
+        } else {
+            CallbackFaults::default()
+        },
         origin: Some(Origin {
             seed,
             run,
